@@ -8,7 +8,7 @@ from .. import storehist as sh
 
 ID = "C06"
 LEVEL = "proof"
-THEOREMS = ["cacheOK_init", "cacheOK_createRootNode", "cacheOK_createAdd", "cacheOK_addDataPointToNode", "cacheOK_removeDataPointFromNode", "cacheOK_removeDataPointFromOutliers", "cacheOK_getSubtree", "cacheOK_removeSubtree", "cacheOK_addSubtree", "cacheOK_relabelNodes", "cacheOK_update", "cacheOK_dictRoundTrip", "cacheOK_step", "cacheOK_reachable_wfc", "cacheOK_reachable", "cacheOK_reachable_of_prefixes", "cacheOK_reachable_legal", "rebuild_eq", "reachable_rebuild", "reachable_rebuild_legal", "wf_ex", "ok_ex"]
+THEOREMS = ["cacheOK_init", "cacheOK_createRootNode", "cacheOK_createAdd", "cacheOK_addDataPointToNode", "cacheOK_removeDataPointFromNode", "cacheOK_removeDataPointFromOutliers", "cacheOK_getSubtree", "cacheOK_removeSubtree", "cacheOK_addSubtree", "cacheOK_relabelNodes", "cacheOK_update", "cacheOK_dictRoundTrip", "cacheOK_step", "cacheOK_reachable_wfc", "cacheOK_reachable", "cacheOK_reachable_of_prefixes", "cacheOK_reachable_legal", "rebuild_eq", "reachable_rebuild", "reachable_rebuild_legal"]
 BUDGET = {"quick": 100, "thorough": 900}
 SEARCH_BUDGET = 60
 EXPLANATION = (
